@@ -156,6 +156,7 @@ type tapBus struct {
 func (t *tapBus) Publish(ev pubsub.Event) error {
 	if mr, ok := ev.(event.ManifestReceived); ok {
 		x := t.x
+
 		lease := pathOf(mr.LeaseID)
 		x.tapped = append(x.tapped, announced{step: x.s.Step, lease: lease, hash: canonicalHash(*mr.Manifest), tapped: true,
 			held: x.leasesHeld[lease] || x.heldLoose[lease], fetched: x.fetchOK, hasDep: mr.Deployment != nil})
@@ -260,8 +261,24 @@ func (x *c20) nextManifest() manifest.Manifest {
 		// nothing on chain ties the version to the groups: the tenant records the hash of a manifest that
 		// disagrees with the on-chain groups (a replica count).  Its hash is the version; it must still be
 		// refused by the resource comparison, for every group, leased to this provider yet or not.
-		g := &nm[x.r.Choose(len(nm), "update.inconsistent.group")]
-		g.Services[0].Count += 2
+		gi := x.r.Choose(len(nm), "update.inconsistent.group")
+		moved := false
+		if len(nm) >= 2 && x.r.Bool(50, "update.inconsistent.move-expose") {
+			// a global expose moves to another group: per-kind totals of the deployment stay the same,
+			// the endpoint counts of two groups do not
+			for si := range nm[gi].Services {
+				if ex := nm[gi].Services[si].Expose; len(ex) > 0 {
+					other := &nm[(gi+1)%len(nm)].Services[0]
+					other.Expose = append(other.Expose, ex[len(ex)-1])
+					nm[gi].Services[si].Expose = ex[:len(ex)-1]
+					moved = true
+					break
+				}
+			}
+		}
+		if !moved {
+			nm[gi].Services[0].Count += 2
+		}
 		x.r.Count("probe:version-of-a-mismatching-manifest")
 	}
 	return nm
